@@ -552,6 +552,20 @@ impl<T> DFA<T> {
     }
 }
 
+/// Verification hooks (read-only): numeric view of DFA states
+#[cfg(feature = "verif-hooks")]
+impl DFAState {
+    /// Dense index of the state
+    pub fn verif_index(self) -> usize {
+        self.0
+    }
+
+    /// State from dense index (caller must keep it below `DFA::size`)
+    pub fn verif_from_index(index: usize) -> Self {
+        DFAState(index)
+    }
+}
+
 impl<T> fmt::Debug for DFA<T>
 where
     T: fmt::Debug,
